@@ -250,13 +250,12 @@ func scanAssignments(c *Ctx, top *FuncInfo, path string, v *types.Var, out, seen
 
 func calleeLabel(info *types.Info, call *ast.CallExpr) string {
 	if f, _ := typeutil.Callee(info, call).(*types.Func); f != nil {
-		// a method of a variable / field path keeps its receiver spelling (r.Client.GetID); a method of a call result
-		// (revoker.Storage().RevokeToken) and a package-level function are named by the resolved callee alone
+		// a method of a field path keeps its receiver spelling (r.Client.GetID, also through a local `client := r.Client`);
+		// a method of a plain handle (storage.X, revoker.X), of a call result (revoker.Storage().X) and a package-level
+		// function are named by the resolved callee alone
 		if sel, ok := unparen(call.Fun).(*ast.SelectorExpr); ok {
-			if r := rootIdent(sel.X); r != nil {
-				if _, isVar := info.Uses[r].(*types.Var); isVar {
-					return types.ExprString(sel.X) + "." + f.Name()
-				}
+			if p := receiverPath(info, sel.X, 0); p != "" {
+				return p + "." + f.Name()
 			}
 		}
 		return f.Name()
@@ -365,4 +364,65 @@ func resultSources(c *Ctx, info *types.Info, call *ast.CallExpr, i int, out, see
 	if !found {
 		out[label] = true
 	}
+}
+
+// receiverPath: the field path a method receiver stands for ("r.Client"), "" for a plain variable, a call result or a package.
+func receiverPath(info *types.Info, e ast.Expr, depth int) string {
+	e = unparen(e)
+	switch x := e.(type) {
+	case *ast.SelectorExpr:
+		if r := rootIdent(x); r != nil {
+			if _, isVar := info.Uses[r].(*types.Var); isVar {
+				return types.ExprString(x)
+			}
+		}
+	case *ast.Ident:
+		// a local defined once as a field path
+		v, _ := info.Uses[x].(*types.Var)
+		if v == nil || depth > 2 {
+			return ""
+		}
+		if rhs := singleLocalDef(info, v); rhs != nil {
+			return receiverPath(info, rhs, depth+1)
+		}
+	}
+	return ""
+}
+
+var roleDefCache = map[*types.Var]ast.Expr{}
+
+// singleLocalDef: the right-hand side of the only `v := e` / `v = e` of a local variable (searched in all loaded bodies once).
+func singleLocalDef(info *types.Info, v *types.Var) ast.Expr {
+	if e, ok := roleDefCache[v]; ok {
+		return e
+	}
+	var rhs ast.Expr
+	n := 0
+	for id, o := range info.Defs {
+		if o != v {
+			continue
+		}
+		_ = id
+	}
+	for _, fi := range roleByObj {
+		if fi.Pkg.TypesInfo != info || fi.Body == nil || v.Pos() < fi.Body.Pos() || v.Pos() > fi.Body.End() {
+			continue
+		}
+		ast.Inspect(fi.Body, func(nd ast.Node) bool {
+			if as, ok := nd.(*ast.AssignStmt); ok && len(as.Lhs) == len(as.Rhs) {
+				for i, l := range as.Lhs {
+					if id, ok := unparen(l).(*ast.Ident); ok && (info.Defs[id] == v || info.Uses[id] == v) {
+						rhs = as.Rhs[i]
+						n++
+					}
+				}
+			}
+			return true
+		})
+	}
+	if n != 1 {
+		rhs = nil
+	}
+	roleDefCache[v] = rhs
+	return rhs
 }
